@@ -46,5 +46,5 @@ MInit == Init /\ ulog = <<>>
 MStep == Step /\ ulog' = ulog \o StepOps
 MSpec == MInit /\ [][MStep]_mvars
 Report == (status[1] # "run") => PrintT(ToJson([pid |-> pid, dec |-> dec, inp |-> inp, ulog |-> ulog, log |-> log, out |-> status,
-                                               xlog |-> xlog, xnode |-> xnode, oc |-> oc]))
+                                               xlog |-> xlog, xnode |-> xnode, xfirst |-> xfirst, delx |-> delx, oc |-> oc]))
 =============================================================================
